@@ -314,7 +314,27 @@ func execDecReflect(a []string) string {
 	})
 }
 
+// dec.reuse <sighex> <first datahex> <datahex>: the destination is decoded into twice; what the second decode leaves in
+// it is the value of the second encoding, whatever the first one was (for lists: elements are built anew)
+func execDecReuse(a []string) string {
+	t := parseSigT(string(unhx(a[0])))
+	first, data := unhx(a[1]), unhx(a[2])
+	return withTimeout(4*time.Second, func() string {
+		p := reflect.New(goTypeOf(t))
+		if err := encoding.NewDecoder(encoding.DefaultCap(), bytes.NewReader(first)).Decode(p.Interface()); err != nil {
+			return "first-err"
+		}
+		r, left := newDataReader(data)
+		d := encoding.NewDecoder(encoding.DefaultCap(), r)
+		if err := d.Decode(p.Interface()); err != nil {
+			return "err"
+		}
+		return fmt.Sprintf("ok %s rest=%d", renderGoD(t, p.Elem()), left())
+	})
+}
+
 func init() {
+	executors["dec.reuse"] = execDecReuse
 	executors["rd.read"] = execRdRead
 	executors["val.read"] = execValRead
 	executors["enc.spec"] = execEncSpec
@@ -445,6 +465,56 @@ func runC02(r *Rand, tier string, o *Out) {
 		o.Count("val:long-" + kind)
 		if res != want {
 			o.Fail("dynamic value does not round-trip: long "+kind, fmt.Sprintf("val.read (%d bytes of %s) => %s…", size, kind, tail2(res, 80)))
+		}
+	}
+	// every length up to 300 (and around the powers of two): a string value, a raw value, a string inside a list with
+	// something behind it, an opaque value whose *signature* has that length (a helper that treats a window of lengths
+	// differently shows here)
+	{
+		var lens []int
+		for l := 0; l <= 300; l++ {
+			lens = append(lens, l)
+		}
+		for k := 9; k <= 13; k++ {
+			for d := -4; d <= 4; d++ {
+				lens = append(lens, 1<<uint(k)+d)
+			}
+		}
+		for idx, l := range lens {
+			b := make([]byte, l)
+			for j := range b {
+				b[j] = byte('a' + (j*5+l)%26)
+			}
+			var g *gval
+			switch shape := idx % 4; {
+			case shape == 0:
+				g = &gval{kind: "s", b: b}
+			case shape == 1:
+				g = &gval{kind: "r", b: b}
+			case shape == 2:
+				g = &gval{kind: "L", elems: []*gval{{kind: "s", b: b}, {kind: "s", b: []byte("after")}, {kind: "I", n: uint64(l)}}}
+			default:
+				// a struct signature of that length: (i…i)<Name,a0,a1,…> padded through the name
+				if l < 12 || l > 2000 {
+					g = &gval{kind: "s", b: b}
+					break
+				}
+				name := strings.Repeat("N", l-11)
+				st := parseSigT("(ii)<" + name + ",a,b>")
+				if len(st.String()) != l {
+					g = &gval{kind: "s", b: b}
+					break
+				}
+				g = &gval{kind: "O", sig: st, tv: genTVal(r, st, 1)}
+			}
+			enc := g.encode()
+			tail := r.Bytes(1 + r.Intn(3))
+			res := o.Do("P", "val.read "+hx(append(append([]byte{}, enc...), tail...)), true)
+			want := fmt.Sprintf("ok %s rest=%d re=%s", g.render(), len(tail), hx(enc))
+			o.Count("val:length-sweep")
+			if res != want {
+				o.Fail("dynamic value does not round-trip: a string, a buffer or a signature of some length", fmt.Sprintf("val.read (length %d, shape %d) => %s…", l, idx%4, tail2(res, 120)))
+			}
 		}
 	}
 	// several opaque values of one small signature whose only member is a dynamic value, side by side in one list:
@@ -623,6 +693,24 @@ func runC03(r *Rand, tier string, o *Out) {
 		}
 		c03CaseV(r, o, parseSigT("m"), nest(35))
 		o.Count("case:many-values-in-one-value")
+	}
+	// a destination that has been decoded into before: lists (of maps, of structs with maps, of lists) whose second
+	// value is shorter and has other keys
+	for i := 0; i < 60; i++ {
+		elem := []string{"{si}", "(s{IC})<Entry,name,flags>", "[{sI}]", "{s[i]}", "({is}I)", "i", "s", "[i]"}[r.Intn(8)]
+		t := parseSigT("[" + elem + "]")
+		if r.Chance(30) {
+			t = parseSigT("([" + elem + "]I)")
+		}
+		v1 := genTVal(r, t, 3)
+		v2 := genTVal(r, t, 2)
+		e1, e2 := encD(t, v1), encD(t, v2)
+		res := o.Do("P", "dec.reuse "+hx([]byte(t.String()))+" "+hx(e1)+" "+hx(e2), true)
+		want := fmt.Sprintf("ok %s rest=0", renderTValD(t, v2))
+		if res != want {
+			o.Fail("reflection decoder does not recover the value: into a destination that was used before", fmt.Sprintf("dec.reuse %s %s %s => %s (want %s)", t.String(), hx(e1), hx(e2), res, want))
+		}
+		o.Count("case:destination-used-before")
 	}
 	// long strings and long lists, around 64 KiB and its multiples, inside typed data
 	long := 6
